@@ -657,15 +657,14 @@ fn judge(
         None => "none",
     };
 
-    let feats = |v: Violation| {
+    // Each clause carries only the features that bear on it (the rest is in the detail text).
+    let f_accept = |v: Violation| {
         v.feat("expected_guid", format!("{:?}", cfg.expect).to_lowercase())
-            .feat("socket_fd_capable", cfg.fd)
-            .feat("mechanism", cfg.mech.name())
-            .feat("flavour", format!("{mode:?}"))
-            .feat("trailing", format!("{trailing:?}"))
             .feat("auth_reply", &auth_reply)
-            .feat("negotiate_reply", &nego_reply)
     };
+    let f_fd = |v: Violation| v.feat("socket_fd_capable", cfg.fd).feat("negotiate_reply", &nego_reply);
+    let f_flavour = |v: Violation| v.feat("flavour", format!("{mode:?}"));
+    let f_trail = |v: Violation| v.feat("flavour", format!("{mode:?}")).feat("trailing", format!("{trailing:?}"));
     let ctx = |what: &str| {
         format!(
             "expected-guid={:?} fd-socket={} mech={} {:?} trailing={:?}: server lines {} — {what}; client status {:?}, fd capability {:?}, stream yielded [{}]",
@@ -683,20 +682,27 @@ fn judge(
     let mut vs = vec![];
 
     if let Status::Panic(p) = &obs.status {
+        // where in the server's stream the panic was provoked
+        let site = if lines.iter().any(|l| *l == b"\n") {
+            "bare-lf-empty-line"
+        } else if lines.iter().any(|l| !l.ends_with(CRLF)) {
+            "bare-lf-line"
+        } else if verdict.may_complete {
+            "after-acceptance"
+        } else {
+            "crlf-lines-only"
+        };
+        let _ = first_line_class;
         vs.push(
-            feats(Violation::new(CL_PANIC, ctx(&format!("the client panicked: {p}")), replay.clone()))
-                .feat("first_line", first_line_class)
-                .feat("last_line", match lines.last() {
-                    Some(l) if *l == b"\n" => "bare-lf-empty-line",
-                    Some(l) if !l.ends_with(CRLF) => "bare-lf-line",
-                    Some(_) => "crlf-line",
-                    None => "none",
-                }),
+            Violation::new(CL_PANIC, ctx(&format!("the client panicked: {p}")), replay.clone())
+                .feat("provoked_by", site)
+                .feat("flavour", if site == "after-acceptance" { format!("{mode:?}") } else { "any".into() })
+                .feat("trailing", if site == "after-acceptance" { format!("{trailing:?}") } else { "any".into() }),
         );
     }
     let completed = obs.status == Status::Completed;
     if completed && !verdict.may_complete {
-        vs.push(feats(Violation::new(
+        vs.push(f_accept(Violation::new(
             CL_ACCEPT,
             ctx(&format!("the handshake completed although {}", verdict.why_not)),
             replay.clone(),
@@ -710,18 +716,18 @@ fn judge(
         && (!negotiated || matches!(parsed.get(nego_pos.unwrap_or(usize::MAX)), Some(ServerLine::AgreeUnixFd | ServerLine::Error)))
         && matches!(mode, Mode::P2p | Mode::BusReturn);
     if proper && !completed && !matches!(obs.status, Status::Panic(_)) {
-        vs.push(feats(Violation::new(
+        vs.push(f_flavour(f_fd(Violation::new(
             CL_PROPER,
             ctx("the server accepted properly (OK with the right GUID, a valid answer to NEGOTIATE_UNIX_FD, Hello answered) but the handshake did not complete"),
             replay.clone(),
-        )));
+        ))));
     }
     if completed && verdict.may_complete {
         match &obs.cap {
             Some(Ok(cap)) => {
                 if *cap != verdict.fd_agreed {
                     vs.push(
-                        feats(Violation::new(
+                        f_fd(Violation::new(
                             CL_FD,
                             ctx(&format!(
                                 "fd passing is {} on the connection but the server {}",
@@ -776,7 +782,7 @@ fn judge(
                 "fds-differ"
             };
             vs.push(
-                feats(Violation::new(
+                f_trail(Violation::new(
                     CL_TRAIL,
                     ctx(&format!(
                         "the bytes after the handshake lines are [{}] but the message stream did not start with exactly these (before the late bytes: [{}])",
@@ -837,10 +843,15 @@ fn result_key(o: &Obs) -> (Status, Option<Result<bool, String>>, Vec<Item>, Vec<
 
 /// Cut positions used for 2-cut splits of streams that carry messages: everything in and right
 /// after the line region, and around every message's start, fixed header end and end.
-fn reduced_positions(sc: &Script) -> Vec<usize> {
+fn reduced_positions(sc: &Script, wide: bool) -> Vec<usize> {
     let total = sc.bytes.len();
-    let mut p: BTreeSet<usize> = (1..=(sc.lines_len + 18).min(total.saturating_sub(1))).collect();
+    let after = if wide { 48 } else { 18 };
+    let mut p: BTreeSet<usize> = (1..=(sc.lines_len + after).min(total.saturating_sub(1))).collect();
     for (s, l) in &sc.msgs {
+        if wide {
+            p.extend(*s..s + 25.min(*l));
+            p.extend(s + l - 8.min(*l)..=s + l);
+        }
         for q in [s + 1, s + 15, s + 16, s + 17, s + l - 1, s + l] {
             p.insert(q);
         }
@@ -874,6 +885,7 @@ pub fn main(args: &Args) -> i32 {
     let states: Mutex<BTreeSet<u64>> = Mutex::new(BTreeSet::new());
     let per_depth: Mutex<BTreeMap<usize, (u64, u64)>> = Mutex::new(BTreeMap::new());
     let tree_exhausted = std::sync::atomic::AtomicBool::new(true);
+    let vsummary: Mutex<BTreeMap<String, u64>> = Mutex::new(BTreeMap::new());
     use std::sync::atomic::Ordering::Relaxed;
 
     // ---- phase 1: the history tree per configuration (p2p, nothing trailing, line by line) ----
@@ -959,6 +971,7 @@ pub fn main(args: &Args) -> i32 {
             }));
         }
         for v in j.violations {
+            *vsummary.lock().unwrap().entry(format!("{} {:?}", v.clause, v.features)).or_insert(0) += 1;
             report.violation(v);
         }
 
@@ -997,8 +1010,11 @@ pub fn main(args: &Args) -> i32 {
                 // Tell the judge about it too: a split run is an execution in its own right.
                 let j2 = judge(cfg, &bank, &lines, mode, trailing, &o2, &pl2);
                 for v in j2.violations {
-                    report.violation(v.feat("delivery", "split"));
+                    let v = v.feat("delivery", "split");
+                    *vsummary.lock().unwrap().entry(format!("{} {:?}", v.clause, v.features)).or_insert(0) += 1;
+                    report.violation(v);
                 }
+                *vsummary.lock().unwrap().entry(format!("{CL_SPLIT} kind={kind} {mode:?} {trailing:?}")).or_insert(0) += 1;
                 report.violation(
                     Violation::new(
                         CL_SPLIT,
@@ -1031,7 +1047,7 @@ pub fn main(args: &Args) -> i32 {
             check(Delivery::Cuts { cuts: vec![c], glue_fd: false });
         }
         // 2-cut splits: all of them when the stream is only lines, else over the reduced positions
-        let pos: Vec<usize> = if base_variant || thorough { (1..total).collect() } else { reduced_positions(&sc) };
+        let pos: Vec<usize> = if base_variant { (1..total).collect() } else { reduced_positions(&sc, thorough) };
         for (i, a) in pos.iter().enumerate() {
             for b in &pos[i + 1..] {
                 check(Delivery::Cuts { cuts: vec![*a, *b], glue_fd: false });
@@ -1060,6 +1076,10 @@ pub fn main(args: &Args) -> i32 {
             .map(|(d, (n, live))| json!({"depth": d, "transcripts": n, "still_waiting": live}))
             .collect::<Vec<_>>()),
     );
+    report.set(
+        "violating_cases_by_identity",
+        json!(vsummary.lock().unwrap().iter().map(|(k, n)| json!({"identity": k, "cases": n})).collect::<Vec<_>>()),
+    );
     if !tree_exhausted.load(Relaxed) {
         report.note("some transcripts of maximal length still wait for input; the depth bound cut the tree");
     }
@@ -1072,7 +1092,7 @@ pub fn main(args: &Args) -> i32 {
          x fd-capable socket x mechanism x flavour {p2p, bus: Hello return / error / signal first} x trailing {none, one message, 1.5 messages, \
          message with fd, plain message then fd message}; every case delivered line by line; cases of <= 2 lines additionally in one read, \
          byte-wise over the line region, with every 1-cut and with 2-cuts (all for line-only streams, otherwise over line region + message \
-         boundaries/header ends; all positions in the thorough tier). non-trivial = the client sent something and at least one server line was delivered",
+         boundaries/header ends; wider windows in the thorough tier). non-trivial = the client sent something and at least one server line was delivered",
         true,
     )
 }
